@@ -267,7 +267,39 @@ func genStep(r *vh.Rand, scenario bool, thorough bool, idx int, prevTok string, 
 	return fmt.Sprintf("%s %s %d %d %s %s %s %s", beh, conn, status, bodyok, bf, vh.HexS(tok), pp, tmpl), tok, plain
 }
 
+func genEngH2(r *vh.Rand) string {
+	n := r.Range(1, 6)
+	mode := r.PickInt([]int{0, 0, 0, 0, 0, 1, 2})
+	line := fmt.Sprintf("eng http2 0 1 %d 1 %d", mode, n)
+	for i := 0; i < n; i++ {
+		beh, conn, status, bodyok, body := "status", "ok", 200, 1, "ok"
+		switch k := r.Intn(10); {
+		case k < 4:
+			status = r.PickInt([]int{200, 204, 404, 500, 503})
+			body = r.Pick([]string{"ok", "", jsonOK, "@300000"})
+			if status == 204 {
+				body = ""
+			}
+		case k < 7:
+			beh, conn, status, bodyok, body = "tlsalert", "proto", 0, 0, ""
+		case k < 8 && mode != 2: // stream-level misbehaviour needs a target that speaks HTTP/2
+			beh, conn, status, bodyok, body = "h2abort", "reset", 0, 0, ""
+		case k < 9 && mode != 2:
+			beh, bodyok, body = "h2trunc", 0, "hello"
+		}
+		bf := vh.HexS(body)
+		if strings.HasPrefix(body, "@") {
+			bf = body
+		}
+		line += fmt.Sprintf(" %s %s %d %d %s - - -", beh, conn, status, bodyok, bf)
+	}
+	return line
+}
+
 func genEng(r *vh.Rand, thorough bool) string {
+	if r.Chance(1, 5) {
+		return genEngH2(r)
+	}
 	gun := r.Pick([]string{"http", "scenario"})
 	n := r.Range(1, 7)
 	inst := r.Range(1, 2)
